@@ -365,6 +365,82 @@ func c10(c *Ctx) {
 	ruleRecordingGuard(c, ix, "R5")
 	ruleSnapshotComplete(c, ix, "R5")
 
+	// child counts are exact: whether a child is counted does not depend on what the sampler answered for it
+	{
+		addChild := ix.Func("(*recordingSpan).addChild")
+		start := ix.Func("(*tracer).Start")
+		if addChild != nil && start != nil {
+			dependsOnSampling := func(f *FuncInfo, n ast.Node) (bool, string) {
+				g := ix.FG(f)
+				nd := g.NodeOf(n)
+				if nd == nil {
+					return false, ""
+				}
+				why := ""
+				for _, wantPol := range []int{1, -1} {
+					dom, _ := g.DominatedByEdges(nd, func(e *GEdge) bool {
+						if e.Cond == nil || e.Pol != wantPol {
+							return false
+						}
+						hit := false
+						ast.Inspect(e.Cond, func(m ast.Node) bool {
+							switch x := m.(type) {
+							case *ast.CallExpr:
+								if cf := callee(info, x); cf != nil && (cf.Name() == "isRecording" || cf.Name() == "isSampled") && len(x.Args) == 1 {
+									hit = true
+								}
+							case *ast.SelectorExpr:
+								if fv, _ := fieldOf(info, x); fv != nil && fv.Name() == "Decision" {
+									hit = true
+								}
+							}
+							return true
+						})
+						if hit {
+							why = exprStr(e.Cond)
+						}
+						return hit
+					})
+					if dom {
+						return true, why
+					}
+				}
+				return false, ""
+			}
+			sites := ix.FindCalls(func(f *FuncInfo, call *ast.CallExpr) bool { return callToDecl(info, addChild)(call) })
+			nSites, bad := 0, ""
+			var badPos token.Pos
+			for _, st := range sites {
+				nSites++
+				f, n := st.F, st.N
+				for depth := 0; depth < 4; depth++ {
+					if dep, why := dependsOnSampling(f, n); dep {
+						bad, badPos = "the call in "+ix.Outer(f).Name+" is reached only when `"+why+"` decides so", st.N.Pos()
+						break
+					}
+					of := ix.Outer(f)
+					if of == start {
+						break
+					}
+					// the (single) static caller of of
+					callers := ix.FindCalls(func(g2 *FuncInfo, call *ast.CallExpr) bool { return callToDecl(info, of)(call) })
+					if len(callers) != 1 {
+						break
+					}
+					f, n = callers[0].F, callers[0].N
+				}
+			}
+			if nSites > 0 {
+				pos := start.Pos()
+				if bad != "" {
+					pos = badPos
+				}
+				c.Check(bad == "", "R5", "sdk/trace|(*tracer).Start|the parent counts a child whatever the sampler answered for it", at(ix.M, pos), itoa(nSites)+" addChild call site(s), none behind the sampling decision",
+					"a child the sampler drops (or only records) is not counted in its recording parent: ChildSpanCount is not exact for children started before the end — "+bad)
+			}
+		}
+	}
+
 	// R6 no deadlock inside the package: mutexes are not re-entrant, and nested acquisitions are ordered
 	c.Rule("R6", "E1 must-held + E1b lock order (package-local)", "no method is called on an object while one of that object's mutexes is held if it acquires that mutex again (itself or through further methods of the object); nested acquisitions of different mutexes in sdk/trace have no reverse path", 3)
 	nre := ruleNoReacquire(c, ix, le, "R6", "sdk/trace")
